@@ -31,7 +31,8 @@ _SDKS: Dict[str, Sdk] = {}
 def sdk_of(model: str) -> Sdk:
     if model not in _SDKS:
         path = MODELS.get(model) or THOROUGH_MODELS[model]
-        sdk = Sdk(path.read_text(encoding="utf-8"))
+        snippets = REPO / "dev" / "test_data" / "main" / "python" / "expected" / path.name[:-len(".py")] / "input" / "snippets"
+        sdk = Sdk(path.read_text(encoding="utf-8"), snippets_from=snippets if model in THOROUGH_MODELS and snippets.is_dir() else None)
         # stub: the generated X_from_str looks the text up in a module-level dict (hashing realizes a symbolic text)
         for name in dir(sdk.stringification):
             value = getattr(sdk.stringification, name)
